@@ -20,15 +20,14 @@ def isSpace (c : UInt8) : Bool := (9 ≤ c.toNat && c.toNat ≤ 13) || c.toNat =
 def isDigit (c : UInt8) : Bool := 48 ≤ c.toNat && c.toNat ≤ 57
 def digitVal (c : UInt8) : Nat := c.toNat - 48
 
-/-- after at least one digit: more digits, single underscores only between digits; returns value and the rest -/
-def digitsTail (acc : Nat) : Bytes → Option (Nat × Bytes)
-  | [] => some (acc, [])
+/-- after at least one digit: more digits, single underscores only between digits (`us` = the previous character was
+    an underscore); returns value and the rest -/
+def digitsTail (acc : Nat) (us : Bool) : Bytes → Option (Nat × Bytes)
+  | [] => if us then none else some (acc, [])
   | c :: r =>
-    if isDigit c then digitsTail (acc * 10 + digitVal c) r
-    else if c = 0x5f then
-      match r with
-      | d :: r' => if isDigit d then digitsTail (acc * 10 + digitVal d) r' else none
-      | [] => none
+    if isDigit c then digitsTail (acc * 10 + digitVal c) false r
+    else if us then none
+    else if c = 0x5f then digitsTail acc true r
     else some (acc, c :: r)
 
 /-- CPython `int(s)` for an ASCII string: whitespace, optional sign, decimal digits with `_` separators -/
@@ -40,7 +39,7 @@ def pyInt (s : Bytes) : Option Int :=
   match s2 with
   | c :: r =>
     if isDigit c then
-      match digitsTail (digitVal c) r with
+      match digitsTail (digitVal c) false r with
       | some (n, rest) => if (rest.dropWhile isSpace).isEmpty then some (if neg then -(n : Int) else (n : Int)) else none
       | none => none
     else none
